@@ -132,3 +132,8 @@ pub struct BitReadCallback { pub x: u8 }
 pub struct RegisterReadCallback { pub x: u8 }
 pub struct WriteCallback { pub x: u8 }
 //@trusted ffi::{BitReadCallback, RegisterReadCallback, WriteCallback}: C function pointers, opaque
+// connection states and TLS enums as generated for C
+//@item @ffi/ffi.rs | ClientState | derive=Copy,Clone
+//@item @ffi/ffi.rs | PortState | derive=Copy,Clone
+//@item @ffi/ffi.rs | MinTlsVersion | derive=Copy,Clone
+//@item @ffi/ffi.rs | CertificateMode | derive=Copy,Clone
